@@ -372,6 +372,9 @@ func verifV1Patch(a, b JsonNode) string {
 	d := a.Diff(b)
 	p, err := d.RenderPatch()
 	if err != nil {
+		if verifHasDashKey(a) || verifHasDashKey(b) {
+			return "" // the key "-" cannot be told from the append index: refusing it is what C18 allows
+		}
 		return "RenderPatch: " + err.Error()
 	}
 	ref, err := verifRFC6902(verifPlain(a), p)
@@ -443,6 +446,25 @@ func verifV1SameMemberTwice(a, b JsonNode, metadata []Metadata) bool {
 				if ok1 && ok2 && len(oi) > 0 && oi.Json() == oj.Json() {
 					return true
 				}
+			}
+		}
+	}
+	return false
+}
+
+// verifHasDashKey: some object in n has the key "-".
+func verifHasDashKey(n JsonNode) bool {
+	switch v := n.(type) {
+	case jsonObject:
+		for k, e := range v {
+			if k == "-" || verifHasDashKey(e) {
+				return true
+			}
+		}
+	case jsonArray:
+		for _, e := range v {
+			if verifHasDashKey(e) {
+				return true
 			}
 		}
 	}
